@@ -10,9 +10,13 @@ package main
 import (
 	"flag"
 	"fmt"
+	"net/http"
+	"net/http/httptest"
 	"os"
 	"path/filepath"
 	"runtime/debug"
+	"strings"
+	"sync/atomic"
 	"time"
 
 	"verifharness/gal"
@@ -64,6 +68,8 @@ func main() {
 		stageInstallIf()
 	case "canon":
 		stageCanon()
+	case "baseimage":
+		stageBaseImage()
 	default:
 		fatal("unknown stage %q", *stage)
 	}
@@ -176,6 +182,58 @@ func stageMatrix() {
 				}
 				w.Add(buildCase(cfg.Name, ref, res))
 			}
+		}
+		srv.Close()
+	}
+	// ---- architectures out of step -----------------------------------------------------------
+	// the newest package build date differs per architecture (no SOURCE_DATE_EPOCH: the multi-architecture date is the maximum
+	// over the architectures) and one architecture's packages arrive late, first the one, then the other: which per-architecture
+	// build finishes last must not show in the index, its SBOM or the per-image artifacts
+	{
+		var pkgs []*synthrepo.Pkg
+		for i, arch := range archs {
+			bt := int64(1700000000 + 50000*i)
+			pkgs = append(pkgs,
+				&synthrepo.Pkg{Name: "base", Version: "1.0-r0", Arch: arch, Origin: "base", License: "MIT", Description: "base", BuildTime: bt,
+					Files: append(dirs("etc", "usr", "usr/bin"), synthrepo.File{Name: "etc/os-release", Mode: 0o644, Content: []byte("ID=synth\nNAME=\"Synth Linux\"\nVERSION_ID=\"1\"\n")})},
+				&synthrepo.Pkg{Name: "tool", Version: "2.0-r0", Arch: arch, Origin: "tool", License: "MIT", Description: "tool", BuildTime: bt + 77, Deps: []string{"base"},
+					Files: append(dirs("usr", "usr/bin"), synthrepo.File{Name: "usr/bin/tool", Mode: 0o755, Content: []byte("#!/bin/sh\necho tool\n")})})
+		}
+		repo, err := synthrepo.Write(filepath.Join(root, "repo-archskew"), key, pkgs)
+		if err != nil {
+			fatal("synthrepo: %v", err)
+		}
+		var slow atomic.Value
+		slow.Store("")
+		fsrv := http.FileServer(http.Dir(repo.Dir))
+		srv := httptest.NewServer(http.HandlerFunc(func(rw http.ResponseWriter, req *http.Request) {
+			if a := slow.Load().(string); a != "" && strings.Contains(req.URL.Path, "/"+a+"/") && strings.HasSuffix(req.URL.Path, ".apk") {
+				time.Sleep(700 * time.Millisecond)
+			}
+			fsrv.ServeHTTP(rw, req)
+		}))
+		cfg := imageCfg{Name: "arch-skew", Packages: []string{"tool"}, Archs: archs, Lean: true}
+		e := &env{root: root, apko: apko, repoURL: srv.URL, keyPath: repo.KeyPath(), cfgName: cfg.Name}
+		e.cfgYAML = cfg.yaml(srv.URL, repo.KeyPath())
+		var ref buildResult
+		for i, a := range []string{archs[0], archs[1], archs[0], ""} {
+			slow.Store(a)
+			c := with(refCell, "no-sde+late-architecture="+a, func(c *cell) { c.SDE = "" })
+			res := e.run(c)
+			builds++
+			secs += res.Seconds
+			if i == 0 {
+				if res.Err != "" {
+					fmt.Printf("IMPL-VIOLATION tag=reference-build-fails %s\n", jsonOf(map[string]any{"configuration": cfg.Name, "cmd": res.Cmd, "error": res.Err}))
+					failed++
+					break
+				}
+				ref = res
+			}
+			if res.Err != "" {
+				failed++
+			}
+			w.Add(buildCase(cfg.Name, ref, res))
 		}
 		srv.Close()
 	}
